@@ -192,15 +192,30 @@ example :
 
 /-- the first seat rotates: `E:` puts the first field into `east`; a repeated rank character is kept once -/
 example :
-    returns (P.runMethod n_Hands n_convert_pbn [.cls n_Hands, .str "E:AA.KK.QQ.JJTT9988 - - -".toList])
+    returns (P.runMethod n_Hands n_convert_pbn [.cls n_Hands, .str "E:AA.KK.QQ.JJTT998 - - -".toList])
       (encHands fun p => if p = .E then [⟨14, .S⟩, ⟨13, .H⟩, ⟨12, .D⟩, ⟨11, .C⟩, ⟨10, .C⟩, ⟨9, .C⟩, ⟨8, .C⟩] else [])
       = true := by
   decide +kernel
 
-/-- a text that does not match `DEAL_PATTERN`, and a field that passes it but not `HAND_PATTERN`'s four groups -/
+/-- a text that does not match `DEAL_PATTERN` -/
 example : (P.runMethod n_Hands n_convert_pbn [.cls n_Hands, .str "N:AKQJ.T98.765.432 - -".toList]).exc? = some K.Exception := by
   decide +kernel
-example : (P.runMethod n_Hands n_convert_pbn [.cls n_Hands, .str "N:AKQJT98765432AKQ - - -".toList]).exc? = some K.Exception := by
+
+/-- `HAND_PATTERN`'s separators are unescaped dots (any character): a field of 16 rank characters passes both patterns, the
+last three characters are eaten as separators -/
+example :
+    returns (P.runMethod n_Hands n_convert_pbn [.cls n_Hands, .str "N:AKQJT98765432AKQ - - -".toList])
+      (encHands fun p => if p = .N then
+        [⟨14, .S⟩, ⟨13, .S⟩, ⟨12, .S⟩, ⟨11, .S⟩, ⟨10, .S⟩, ⟨9, .S⟩, ⟨8, .S⟩, ⟨7, .S⟩, ⟨6, .S⟩, ⟨5, .S⟩, ⟨4, .S⟩, ⟨3, .S⟩,
+         ⟨2, .S⟩] else []) = true := by
+  decide +kernel
+
+/-- `_hand_parser` called directly: a hand, and a text with fewer than three characters to serve as separators (`Exception`) -/
+example :
+    returns (P.runMethod n_Hands n__hand_parser [.str "AK.Q.J.T".toList])
+      (.tuple ([⟨14, .S⟩, ⟨13, .S⟩, ⟨12, .H⟩, ⟨11, .D⟩, ⟨10, .C⟩].map encCard)) = true := by
+  decide +kernel
+example : (P.runMethod n_Hands n__hand_parser [.str "AK".toList]).exc? = some K.Exception := by
   decide +kernel
 
 end Bridge.Translated.HandsPbn
